@@ -91,6 +91,26 @@ def source_geometry(src):
         e = entry(src["eid"])
         ll = [lattice.lonlat_deg(v) for v in e["nodes"]]
         return {"lon": [a for a, _ in ll], "lat": [b for _, b in ll], "faces": e["faces"], "nodes": e["nodes"], "name": e["name"]}
+    if src["t"] == "fine":
+        # the part of a catalogue mesh inside an 80-degree cap around `centre`, shrunk by 1/M about it: in exact
+        # integers v -> (M-1)(v.c) c + (c.c) v (gnomonic projection, homothety of the tangent plane).  The map is
+        # linear, keeps incidence, convexity and orientation, keeps the ORDER OF DISTANCES from c (tan t' = tan t / M),
+        # and for c a pole also every longitude and the order of latitudes (SubsetGen.tla: ShrinkLaws), so TLC decides
+        # the selections on the base vectors; the judge refuses any other use (precondition fine_not_scale_free)
+        e = entry(src["eid"])
+        c, M = src["centre"], src["M"]
+        cc = sum(x * x for x in c)
+        dot = lambda v: sum(v[k] * c[k] for k in range(3))
+        inside = lambda v: dot(v) > 0 and 100 * dot(v) ** 2 > 3 * cc * sum(x * x for x in v)  # within ~80 degrees
+        faces = [f for f in e["faces"] if all(inside(e["nodes"][k]) for k in f)]
+        used = sorted({k for f in faces for k in f})
+        new = {old: i for i, old in enumerate(used)}
+        faces = [[new[k] for k in f] for f in faces]
+        nodes = [list(e["nodes"][k]) for k in used]
+        geo = {"faces": faces, "nodes": nodes, "name": e["name"], "fine": {"c": list(c), "M": M, "cc": cc}}
+        ll = [lattice.lonlat_deg(image(geo, v)) for v in nodes]
+        geo["lon"], geo["lat"] = [a for a, _ in ll], [b for _, b in ll]
+        return geo
     if src["t"] == "planar":
         rng = random.Random(src["seed"])
         lon, lat, faces = meshgen.planar_mixed(src["nx"], src["ny"], rng, holes=src.get("holes", 0.0))
@@ -124,6 +144,61 @@ def source_geometry(src):
     raise ValueError(src)
 
 
+def image(geo, v):
+    """Where the source puts the lattice direction v (identity except for fine sources)."""
+    f = geo.get("fine")
+    if not f:
+        return list(v)
+    c, M, cc = f["c"], f["M"], f["cc"]
+    d = sum(v[k] * c[k] for k in range(3))
+    return [(M - 1) * d * c[k] + cc * v[k] for k in range(3)]
+
+
+def supplied_refs(geo, E):
+    """Lattice reference points a source may SUPPLY as its face / edge centres: strictly inside the face / on the
+    edge, but deliberately not the centroid / midpoint (sum of the corners plus the first corner; 2a + b)."""
+    n = geo["nodes"]
+    fr = [[sum(n[c][k] for c in f) + n[f[0]][k] for k in range(3)] for f in geo["faces"]]
+    er = [[2 * n[a][k] + n[b][k] for k in range(3)] for a, b in E]
+    return fr, er
+
+
+def mpas_dataset(geo, E):
+    """In-memory MPAS primal mesh: 1-based tables padded with 0, radians in 0..2pi, its own edge numbering."""
+    import xarray as xr
+
+    faces = geo["faces"]
+    nf, nn, ne = len(faces), len(geo["lon"]), len(E)
+    w = max(len(f) for f in faces)
+    i32 = np.int32
+    voc = np.zeros((nf, w), dtype=i32)
+    eoc = np.zeros((nf, w), dtype=i32)
+    coe = np.zeros((ne, 2), dtype=i32)
+    eid = {(min(a, b), max(a, b)): k for k, (a, b) in enumerate(E)}
+    for i, f in enumerate(faces):
+        voc[i, : len(f)] = np.array(f) + 1
+        for j in range(len(f)):
+            a, b = f[j], f[(j + 1) % len(f)]
+            k = eid[(min(a, b), max(a, b))]
+            eoc[i, j] = k + 1
+            coe[k, 0 if coe[k, 0] == 0 else 1] = i + 1
+    nfo = [[i + 1 for i, f in enumerate(faces) if n in f] for n in range(nn)]
+    cov = np.zeros((nn, max(1, max(len(x) for x in nfo))), dtype=i32)
+    for n, x in enumerate(nfo):
+        cov[n, : len(x)] = x
+    ds = xr.Dataset()
+    ds["lonVertex"] = xr.DataArray(np.radians(np.array(geo["lon"], dtype=float) % 360.0), dims=["nVertices"])
+    ds["latVertex"] = xr.DataArray(np.radians(np.array(geo["lat"], dtype=float)), dims=["nVertices"])
+    ds["verticesOnCell"] = xr.DataArray(voc, dims=["nCells", "maxEdges"])
+    ds["nEdgesOnCell"] = xr.DataArray(np.array([len(f) for f in faces], dtype=i32), dims=["nCells"])
+    ds["cellsOnVertex"] = xr.DataArray(cov, dims=["nVertices", "vertexDegree"])
+    ds["verticesOnEdge"] = xr.DataArray(np.array(E, dtype=i32) + 1, dims=["nEdges", "TWO"])
+    ds["edgesOnCell"] = xr.DataArray(eoc, dims=["nCells", "maxEdges"])
+    ds["cellsOnEdge"] = xr.DataArray(coe, dims=["nEdges", "TWO"])
+    ds.attrs["on_a_sphere"] = "YES"
+    return ds
+
+
 def build_grid(geo, prov, seed):
     ux = hux.import_ux()
     INT_DTYPE, FILL = hux.consts()
@@ -138,6 +213,22 @@ def build_grid(geo, prov, seed):
     if prov == "supplied":
         return ux.Grid.from_topology(
             lon, lat, hux.pad_table(faces), fill_value=FILL, edge_node_connectivity=np.array(E, dtype=INT_DTYPE)
+        )
+    if prov == "mpas":
+        return ux.open_grid(mpas_dataset(geo, E))
+    if prov == "supplied_c":
+        fr, er = supplied_refs(geo, E)
+        kw = {}
+        for tag, refs in (("face", fr), ("edge", er)):
+            img = [image(geo, r) for r in refs]
+            ll = [lattice.lonlat_deg(v) for v in img]
+            u = [lattice.unit(v) for v in img]
+            kw[tag + "_lon"] = np.array([a for a, _ in ll])
+            kw[tag + "_lat"] = np.array([b for _, b in ll])
+            for k, ax in enumerate("xyz"):
+                kw["%s_%s" % (tag, ax)] = np.array([x[k] for x in u])
+        return ux.Grid.from_topology(
+            lon, lat, hux.pad_table(faces), fill_value=FILL, edge_node_connectivity=np.array(E, dtype=INT_DTYPE), **kw
         )
     if prov in ("ugrid", "ugrid_ec", "ugrid_plain"):
         import xarray as xr
@@ -192,10 +283,14 @@ def match_positions(xyz, src_xyz):
 
 
 # --------------------------------------------------------------------------- classes of reference points
-def ref_dirs(kind, geo, srcE):
+def ref_dirs(kind, geo, srcE, supplied=False):
+    """Base lattice directions of the reference points of the selection kind."""
     n = geo["nodes"]
     if kind == "node":
         return [list(v) for v in n]
+    if supplied:
+        fr, er = supplied_refs(geo, srcE)
+        return fr if kind == "face" else er
     if kind == "face":
         return [[sum(n[c][k] for c in f) for k in range(3)] for f in geo["faces"]]
     return [[n[a][k] + n[b][k] for k in range(3)] for a, b in srcE]
@@ -295,16 +390,18 @@ def lat_from_pick(geo, grid, pick, mode):
     """-> (sel, lat float) or None.  mode 'gap': strictly between two consecutive node latitude classes;
     'at': exactly a node's latitude, only if the implementation's own sin(deg2rad(lat)) reproduces the stored z
     of every node of that class bit for bit (probed through the implementation's jitted scan itself)."""
-    if geo["nodes"] is not None:
-        vals = [lattice.lonlat_deg(v)[1] for v in geo["nodes"]]
-    else:
-        vals = geo["lat"]
+    vals = geo["lat"]  # the latitudes the source was given (catalogue: of the lattice directions themselves)
     lc = classes(vals, list(range(len(vals))))
+    z = np.asarray(grid.node_z.values)
     if mode == "gap":
         if len(lc) < 2:
             return None
         k = pick % (len(lc) - 1)
         lat = (lc[k][0] + lc[k + 1][0]) / 2.0
+        # fine meshes: the z-classes of neighbouring latitudes nearly coincide in floating point; judged only when
+        # the parallel's z clears every stored node z by 1e-12 (z is of order one: relative = absolute)
+        if np.min(np.abs(z - math.sin(math.radians(lat)))) < 1e-12:
+            return None
         if geo["nodes"] is not None:
             return {"t": "lat", "gap": [lc[k][1][0], lc[k + 1][1][0]]}, lat
         return {"t": "lat", "pint": (geo["latint"][lc[k][1][0]] + geo["latint"][lc[k + 1][1][0]]) // 2}, lat
@@ -314,7 +411,9 @@ def lat_from_pick(geo, grid, pick, mode):
         return None
     from uxarray.grid.intersections import fast_constant_lat_intersections
 
-    z = np.asarray(grid.node_z.values)
+    others = [n for n in range(len(vals)) if n not in ids]
+    if others and np.min(np.abs(z[others] - math.sin(math.radians(lat)))) < 1e-12:
+        return None
     for n in ids:
         probe = np.array([[z[n], 2.0], [z[n], -2.0]])
         # z != z_parallel: exactly one of the two probe edges straddles, whether the test is strict or not;
@@ -524,6 +623,8 @@ def record_case(case):
     except Exception as e:  # noqa
         return {"id": case["id"], "_machinery": "source: %s: %s" % (type(e).__name__, str(e)[:200])}
     rec["mesh"] = geo["faces"]
+    if geo.get("fine"):
+        rec["fine"] = geo["fine"]["c"]
     if geo["nodes"] is not None:
         rec["nodes"] = geo["nodes"]
     elif "latint" in geo:
@@ -569,9 +670,19 @@ def record_case(case):
         elif t in ("box", "circle", "knn"):
             if geo["nodes"] is None:
                 raise ValueError("coordinate selections need a lattice source")
-            dirs = ref_dirs(kind, geo, srcE)
+            supplied = case["prov"] == "supplied_c" and kind != "node"
+            if geo.get("fine") and kind != "node" and not supplied:
+                raise ValueError("centres of a shrunk mesh are not images of lattice points unless the source supplies them")
+            dirs = ref_dirs(kind, geo, own_edges(geo["faces"], seed) if supplied else srcE, supplied)
+            if supplied:
+                rec["refs"] = dirs
+            fdirs = [image(geo, d) for d in dirs]  # where the source puts them: used for float bounds only
+            cart = bool(op.get("cart"))
+            if "c" in op:
+                fc = image(geo, op["c"])
+                centre = list(lattice.unit(fc)) if cart else lattice.lonlat_deg(fc)
             if t == "box":
-                got = box_from_pick(dirs, op["pick"])
+                got = box_from_pick(fdirs, op["pick"])
                 if got is None:
                     return {"id": case["id"], "_skip": "no box"}
                 sel, lonb, latb = got
@@ -580,13 +691,19 @@ def record_case(case):
                 rec["sel"] = sel
                 call = ("bounding_box", {"lon_bounds": lonb, "lat_bounds": latb, "element": ELEMENT[kind]})
             elif t == "circle":
-                sel, r = circle_from_pick(dirs, op["c"], op["pick"])
+                sel, r = circle_from_pick(fdirs, fc, op["pick"])
+                sel["c"] = list(op["c"])
                 rec["sel"] = sel
-                call = ("bounding_circle", {"center_coord": lattice.lonlat_deg(op["c"]), "r": r, "element": ELEMENT[kind]})
+                if cart:
+                    # a Cartesian centre goes to the k-d tree, whose metric is the chord: the radius is handed over in
+                    # the tree's own unit (the accessor documents degrees for longitude-latitude centres only)
+                    r = 2.0 * math.sin(math.radians(r) / 2.0)
+                call = ("bounding_circle", {"center_coord": centre, "r": r, "element": ELEMENT[kind]})
             else:
-                sel = knn_from_pick(dirs, op["c"], op["pick"])
+                sel = knn_from_pick(fdirs, fc, op["pick"])
+                sel["c"] = list(op["c"])
                 rec["sel"] = sel
-                call = ("nearest_neighbor", {"center_coord": lattice.lonlat_deg(op["c"]), "k": sel["k"], "element": ELEMENT[kind]})
+                call = ("nearest_neighbor", {"center_coord": centre, "k": sel["k"], "element": ELEMENT[kind]})
         elif t == "lat":
             got = lat_from_pick(geo, grid, op["pick"], op["mode"])
             if got is None:
